@@ -27,7 +27,8 @@ UNIVERSES = {
     'U5': ((0, 1, 2, 3, 4), 1, ('b', 'a', 'b', 'a', 'c'), False, False),
 }
 
-ATTACH_FAMILIES = {'parent', 'list=', 'list+=', '//', '//1', 'append', 'list.parent=', 'W.tasks.parent=', 'Task()', 'list=view', 'list+=view'}
+ATTACH_FAMILIES = {'parent', 'list=', 'list+=', '//', '//1', 'append', 'list.parent=', 'W.tasks.parent=', 'Task()', 'list=view', 'list+=view',
+                   'list=iter'}
 
 _U = None
 _OPS = None
@@ -255,7 +256,7 @@ def _expand_chunk(chunk):
     return acc
 
 
-FACADE_FAMS = {'append', 'remove', 'insert', 'move_before', 'move_after', 'move_none', 'move_both', 'sort', 'sort_bad', 'reorder',
+FACADE_FAMS = {'append', 'remove', 'insert', 'move_before', 'move_after', 'move_none', 'move_both', 'sort', 'sort_bad', 'reorder', 'reorder_iter',
                'remove_all_id', 'remove_all_fn', 'list<<', 'list>>', 'list.parent='}
 LINK_FACADE_SUFFIXES = ('.append', '.remove', '.remove_all_id')
 
